@@ -10,8 +10,11 @@ if [ "$1" = "--one" ]; then
   nv=$(echo "$out" | grep -c "^VIOLATION"); nu=$(echo "$out" | grep -c "^UNDECIDED"); nf=$(echo "$out" | grep "^VIOLATION" | grep -vc "no-failing-input-found")
   first=$(echo "$out" | grep "^VIOLATION" | head -1 | sed 's/.*replay=//' | awk '{print $1}')
   ob=""; [ -n "$first" ] && ob=$(/verif/.venv/bin/python -c "import json,sys; print(json.load(open('$first')).get('obligation',''))" 2>/dev/null)
-  echo "$id: exit=$rc violations=$nv with_input=$nf undecided=$nu first=$ob"
-  printf '{"seed": "%s", "property": "%s", "check_exit": %s, "violation_lines": %s, "with_failing_input": %s, "undecided": %s, "first_failed_obligation": "%s"}\n' "$id" "$prop" "$rc" "$nv" "$nf" "$nu" "$ob" > $d/detection.json
+  files=$(echo "$out" | grep "^VIOLATION" | sed 's/.*replay=//' | awk '{print $1}')
+  nn=0; nun=0; firstunit=""
+  for f in $files; do o=$(/verif/.venv/bin/python -c "import json,sys; print(json.load(open('$f')).get('obligation',''))" 2>/dev/null); case "$o" in native:*) nn=$((nn+1));; *) nun=$((nun+1)); [ -z "$firstunit" ] && firstunit="$o";; esac; done
+  echo "$id: exit=$rc violations=$nv (units=$nun natives=$nn) with_input=$nf undecided=$nu first=$ob"
+  printf '{"seed": "%s", "property": "%s", "check_exit": %s, "violation_lines": %s, "failed_proof_obligations": %s, "failed_native_checks": %s, "with_failing_input": %s, "undecided": %s, "first_failed_obligation": "%s", "first_failed_proof_obligation": "%s"}\n' "$id" "$prop" "$rc" "$nv" "$nun" "$nn" "$nf" "$nu" "$ob" "$firstunit" > $d/detection.json
   rm -rf $W
   exit 0
 fi
